@@ -976,8 +976,9 @@ func (p *Parser) newLit(r rune) {
 		// sentinel runes not present in the input as-is
 		p.litBs = p.litBuf[:0]
 	default:
-		w := utf8.RuneLen(r)
-		p.litBs = append(p.litBuf[:0], p.bs[p.bsp-uint(w):p.bsp]...)
+		// The bytes of the rune just read; p.w and not utf8.RuneLen(r), as an
+		// invalid byte read as utf8.RuneError after a failed read is one byte wide.
+		p.litBs = append(p.litBuf[:0], p.bs[p.bsp-uint(p.w):p.bsp]...)
 	}
 }
 
